@@ -7,6 +7,7 @@
    rejected (Props/C10.v), and the inputs that used to crash no longer do (in the model; the
    implementation is run on the same inputs on every check). *)
 From JS Require Import Base Bytes Scanner ScanRun Directive Core Entry C01Proofs ScanTotal StackSafe.
+From JS Require Import Expand Catalog CatalogTotal.
 From JS Require ScannerProg.
 From JS Require IncludeName Inventory InventoryExpected.
 
@@ -35,6 +36,16 @@ Theorem C01_scanner_never_pops_an_empty_stack :
     e <> EndPanic PStepStackEmpty.
 Proof. exact scanner_never_pops_an_empty_stack. Qed.
 
+(* the catalog builder: on every forest whose nesting follows the (regenerated) context table -
+   which is what the directive layer produces, Props/C11.v - with the MACROs expanded away, the
+   interaction pass never reaches one of its impossible states (c.Info nil under Title / Version /
+   Description, BaseUrl / Body / Protocol without a parent), whatever the catalog state, the ban
+   list and the body texts *)
+Theorem C01_catalog_builder_never_reaches_an_impossible_state :
+  forall read_body banned fuel pf ds c,
+    forallb (placed pf None) ds = true -> forall pn, add_all read_body banned fuel c ds <> CPanic pn.
+Proof. exact add_all_never_panics. Qed.
+
 Theorem C01_no_nil_current_directive :
   forall st l, core_next st l <> CPanic CPNilCurrentDirective.
 Proof. exact core_next_never_nil_directive. Qed.
@@ -50,6 +61,7 @@ Proof. exact repaired_crashes_stay_repaired. Qed.
 Print Assumptions C01_inventory_is_the_reviewed_one.
 Print Assumptions C01_scanner_control_flow_is_total.
 Print Assumptions C01_scanner_never_pops_an_empty_stack.
+Print Assumptions C01_catalog_builder_never_reaches_an_impossible_state.
 Print Assumptions C01_no_nil_current_directive.
 Print Assumptions C01_include_validation_total.
 Print Assumptions C01_repaired_crashes_stay_repaired.
